@@ -50,6 +50,8 @@ def extra(tier, rng):
     # PARAM.SFO shapes: any key order, any number of entries
     for b, a in ([(0, 0), (1, 0), (0, 1), (5, 6)] if full else [(3, 2)]):
         add("sfo-%d-%d" % (b, a), isotrees.ps3_tree(rng, "BCES00104", b, a), ps3=True, title=["BCES", "00104"])
+    add("sfo-realistic", isotrees.ps3_tree(rng, "BCES00104", 0, 0, realistic=True), ps3=True, title=["BCES", "00104"])
+    add("sfo-realistic-npub", isotrees.ps3_tree(rng, "NPUB31337", 1, 2, realistic=True), ps3=True, title=["NPUB", "31337"])
     return cases
 
 
